@@ -56,6 +56,7 @@ def gen(rng, tier, i):
         chaos["capacity"] = 1 << 20
     sc.net["chaos"] = chaos
     sc.net["spawn_yield"] = rng.choice([0, 300])
+    sc.net["lock_yield"] = rng.choice([0, 0, 300])   # seeded scheduling points at the asynchronous locks
     sc.cfg["timeouts"] = {"idle": 600, "udp": 2 if oc == "udp-assoc-timeout" else 600}
     # listener
     if lk == "http":
